@@ -420,6 +420,53 @@ func scenDirectedOnce(seed uint64, e *ctxEnv, idx int, which string, scale int, 
 		if oc.rv.Kind != "build" || oc.rv.Canc || oc.rv.B == oa.rv.B {
 			e.st.Fail("rebuild-after-cancel-not-fresh", desc, rvString(oc.rv), "a new complete build")
 		}
+	case "overlapping-cancels":
+		// two or more Cancel calls overlap on one held build: none of them may
+		// return before the build has ended; a Rebuild made after a Cancel
+		// returned gets a fresh build with the edit
+		a := hold()
+		nc := r.Range(2, 4)
+		var ks []*asyncCall
+		for i := 0; i < nc; i++ {
+			ks = append(ks, c.async(ctx, "cancel"))
+			settle()
+		}
+		early := false
+		for i, k := range ks {
+			if c.hasReturned(k.id) {
+				running, b := c.buildRunning()
+				desc["scenario"] = "overlapping-cancels"
+				e.st.Fail("cancel-returned-while-build-running", desc, fmt.Sprintf("Cancel call number %d of %d overlapping ones returned while build %d is still held in on-load (running=%v)", i+1, nc, b, running), "Cancel returns only after every build started before the call has ended")
+				early = true
+				break
+			}
+		}
+		c.edit()
+		var rb *asyncCall
+		if early {
+			rb = c.async(ctx, "rebuild") // issued after a Cancel returned: must not be handed the cancelled build
+			settle()
+		}
+		release()
+		oa := a.wait()
+		reportErrs(oa)
+		for _, k := range ks {
+			k.wait()
+		}
+		if rb != nil {
+			ob := rb.wait()
+			if ob.rv.Kind == "build" && ob.rv.B == oa.rv.B {
+				e.st.Fail("rebuild-returned-a-build-that-ended-before-the-call", desc, "Rebuild issued after Cancel returned was handed the cancelled build "+rvString(ob.rv), "a fresh build that contains the edit")
+			}
+		}
+		oc := c.doCall(ctx, "rebuild", callTimeout)
+		reportErrs(oc)
+		c.mu.Lock()
+		v := c.version
+		c.mu.Unlock()
+		if oc.rv.Kind != "build" || oc.rv.Canc || oc.rv.B == oa.rv.B || !oc.rv.HasVer || oc.rv.Ver != v {
+			e.st.Fail("rebuild-after-cancel-not-fresh", desc, rvString(oc.rv), fmt.Sprintf("a new complete build at version %d", v))
+		}
 	case "dispose":
 		a := hold()
 		d := c.async(ctx, "dispose")
@@ -695,12 +742,12 @@ func runContexts(r *Rng, e *ctxEnv, n int, tier string) {
 		}
 	}
 	// fixed corpus first: directed scenarios (including the replays of known findings)
-	for i, w := range []string{"sequential-edits", "join", "cancel", "dispose", "cancel-during-dispose", "second-dispose"} {
+	for i, w := range []string{"sequential-edits", "join", "cancel", "overlapping-cancels", "overlapping-cancels", "dispose", "cancel-during-dispose", "second-dispose"} {
 		scenDirected(r.U64(), e, 1000+i, w)
 	}
 	extra := n / 20
 	for i := 0; i < extra; i++ {
-		w := []string{"sequential-edits", "join", "cancel", "dispose"}[r.Intn(4)]
+		w := []string{"sequential-edits", "join", "cancel", "dispose", "overlapping-cancels"}[r.Intn(5)]
 		scenDirected(r.U64(), e, 2000+i, w)
 	}
 	for i := 0; i < n; i++ {
